@@ -854,6 +854,27 @@ func runC04(p *core.Program, r *core.Report) {
 				continue
 			}
 			if f2, ok := fa.X.(*ssa.FieldAddr); ok && f2.X == descentNode(fn) {
+				extra := unaccountedGuard(fn, st.Block(), func(v ssa.Value) bool {
+					if isNilTest(v) {
+						return true
+					}
+					bo, ok := v.(*ssa.BinOp)
+					if !ok {
+						return false
+					}
+					for _, side := range []ssa.Value{bo.X, bo.Y} {
+						if call, ok := side.(*ssa.Call); ok {
+							if cal := call.Call.StaticCallee(); cal != nil && (cal.Name() == "Compare" || (cal.Origin() != nil && cal.Origin().Name() == "Compare")) {
+								return true
+							}
+							if _, isFn := call.Call.Value.Type().Underlying().(*types.Signature); isFn && call.Call.StaticCallee() == nil {
+								return true // the comparator itself
+							}
+						}
+					}
+					return false
+				})
+				c.ob("PV2", p.FuncName(fn), "value overwritten at every hit", p.InstrPos(st), extra == nil, "the overwrite of n.Val hangs on a branch that is neither a comparison outcome nor a nil test: in some states Upsert of an existing key keeps the old value")
 				c.ob("PV2", p.FuncName(fn), "value overwritten at the hit only", p.InstrPos(st), cmpOutcome(fn, st.Block(), paramByName(fn, "key"), descentNode(fn)) == ordEQ && st.Val == ssa.Value(paramByName(fn, "val")),
 					"upsert must overwrite n.Val with val exactly where neither Compare outcome 1 nor -1 holds")
 			}
